@@ -339,7 +339,8 @@ def enumeration_table(ctx: Ctx, cube):
 
     m = ctx.repo.lookup(cube, "_slice_idxs")
     where = "cube.py::Cube._slice_idxs [table]"
-    body = SUMMARIZER.summarize(m.node)
+    # private helper properties (a `_slice_count`) are inlined; public members and the CA-as-0th flag are the table's inputs
+    body = expand(ctx.repo, cube, "_slice_idxs", stop=lambda mm: not mm.name.startswith("_") or mm.name == "_ca_as_0th")
     known = {"self.ndim", "self._ca_as_0th", "self.dimensions"}
     extra = sorted({u(n) for n in ast.walk(body) if isinstance(n, ast.Attribute) and isinstance(n.value, ast.Name) and n.value.id == "self" and u(n) not in known})
     if len(extra) > 2:
